@@ -17,13 +17,15 @@ def arr(v, shape, what, key, case):
     return a.reshape(shape)
 
 
-def cmp(got, ref, what, key, case, rtol=1e-9, atol=1e-12):
+def cmp(got, ref, what, key, case, rtol=1e-9, atol=1e-12, terms=0.0):
+    """terms: size of the largest terms summed into an entry of the reference (cancellation noise ~1e-16*terms); entries are
+    judged no finer than 1e-13*terms."""
     got = np.asarray(got, float)
     ref = np.asarray(ref, float)
     scale = np.maximum(np.abs(ref), np.abs(got))
     # the absolute floor scales with the largest entry: an entry that is zero by cancellation of terms of size M carries
     # rounding noise of order 1e-16*M in the reference itself
-    floor = atol * (1 + (float(np.abs(ref).max()) if ref.size else 0.0))
+    floor = atol * (1 + (float(np.abs(ref).max()) if ref.size else 0.0)) + 1e-13 * float(terms)
     bad = (np.abs(got - ref) > rtol * scale + floor) | ~np.isfinite(got)
     if bad.any():
         i = tuple(int(k) for k in np.argwhere(bad)[0])
